@@ -122,9 +122,9 @@ def plan(tier, k):
         dict(BlockBits=4 if big else 3, NBlocks=3, MaxRanges=2, AddPorts="1..%d" % top,
              AddRanges="{x \\in (1..%d) \\X (1..%d) : x[1] < x[2]}" % (top, top), Strings=strs, CaseStrings="{}", MaxOps=0, Concrete="TRUE", EMIT="", INVS=PORT_INVS, PROPS="ParseIsMeaning Monotone"))
     # port sets, the code's word size: range strings over the block-boundary alphabet, expected runs from intervals
-    edge = [1, B - 1, B, B + 1, B * (NB - 1), B * NB - 2, B * NB - 1]
+    edge = [1, B - 1, B, B + 1, B * NB - 2, B * NB - 1]
     if big:
-        edge += [2, 2 * B - 1, 2 * B, 2 * B + 1, B * (NB - 1) - 1, B * (NB - 1) + 1]
+        edge += [2, 2 * B - 1, 2 * B, 2 * B + 1, B * (NB - 1) - 1, B * (NB - 1), B * (NB - 1) + 1]
     stripes = ["Stripe(1, 2, 1, %d)" % (maxr + 1), "Stripe(1, 2, 1, %d)" % maxr, "Stripe(%d, 3, 2, %d)" % (B - 4, maxr),
                "Stripe(%d, %d, 2, %d)" % (B - 1, B, maxr + 24), "Stripe(%d, %d, %d, %d)" % (B, 2 * B, B, maxr + 1),
                "Stripe(%d, 2, 1, %d)" % (B * NB - 1 - 2 * (maxr + 3), maxr + 4)]
@@ -230,7 +230,9 @@ def run(tier, seed, replay):
         outs = common.run_parallel(binary, test, inputs, timeout)
         agg = dict(behaviours=0, steps=0, distinct=0, evaluations=0)
         vlib.log("[drive] %s: %d processes done" % (what, len(outs)))
-        for res, out, rc in outs:
+        for i, (res, out, rc) in enumerate(outs):
+            if res and res.get("samples"):
+                res["samples"] = res["samples"][:1] if i == 0 else []      # one sample per kind of case
             res = common.absorb(v, res, out, rc, what)
             agg["behaviours"] += res["behaviours"]
             agg["steps"] += res["steps"]
